@@ -50,6 +50,8 @@ CRATES = {
     },
 }
 
+TREE_TAG = "t" + hashlib.sha256(REPO.encode()).hexdigest()[:8]
+
 print_lock = threading.Lock()
 
 
@@ -140,7 +142,9 @@ def limit_mem(gb):
 
 def kani_cmd(h, slot, extra=()):
     crate = CRATES[h["crate"]]
-    cmd = ["cargo", "kani"] + crate["args"] + ["--target-dir", os.path.join(CACHE, "target", "slot%d" % slot)]
+    # the target directory is private to (source tree, slot): artifacts of another tree with the
+    # same package name must never be picked up
+    cmd = ["cargo", "kani"] + crate["args"] + ["--target-dir", os.path.join(CACHE, "target", TREE_TAG, "slot%d" % slot)]
     cmd += ["--harness", h["module"] + "::" + h["name"], "--exact"]
     if h["stubbing"]:
         cmd += ["-Z", "stubbing"]
@@ -203,7 +207,9 @@ def run_harness(h, tier, use_cache=True, extra=(), log_suffix=""):
     slot = slot_queue.get()
     try:
         cmd, cwd = kani_cmd(h, slot, extra)
-        logdir = os.path.join(CACHE, "logs")
+        # one log directory per runner process: concurrent invocations (other trees, other
+        # properties) must not overwrite each other's harness logs
+        logdir = os.path.join(CACHE, "logs", "p%d" % os.getpid())
         os.makedirs(logdir, exist_ok=True)
         logp = os.path.join(logdir, h["name"] + log_suffix + ".log")
         t0 = time.time()
@@ -247,6 +253,8 @@ def classify(h, r):
     fails = []          # dicts: {props:[..], label, desc, loc, kind}
     inconclusive = []
     covers_bad = []
+    covers_unreach = []
+    covers_sat = 0
     if r["timed_out"]:
         inconclusive.append("timeout after %ss" % h["timeout_s"])
         return fails, covers_bad, inconclusive
@@ -266,8 +274,15 @@ def classify(h, r):
         st = c["status"]
         is_cover = ".cover." in c["id"] or c["desc"].startswith("cover:")
         if is_cover:
-            if st != "SATISFIED":
+            # UNREACHABLE: the cover sits in code that this instantiation of a shared harness
+            # function never executes (tolerated as long as the harness has a satisfied cover);
+            # UNSATISFIABLE: reachable but never true - a vacuity problem
+            if st == "UNREACHABLE":
+                covers_unreach.append(c["desc"])
+            elif st != "SATISFIED":
                 covers_bad.append(c["desc"] + " [" + st + "]")
+            else:
+                covers_sat += 1
             continue
         if st in ("SUCCESS", "UNREACHABLE"):
             continue
@@ -291,6 +306,8 @@ def classify(h, r):
                 fails.append({"props": [m.group(1)], "label": m.group(1) + "/" + m.group(2), "desc": c["desc"], "loc": c["loc"], "kind": "oracle"})
             else:
                 fails.append({"props": list(h["panic_props"]), "label": "panic", "desc": c["desc"], "loc": c["loc"], "kind": "panic"})
+    if covers_unreach and covers_sat == 0:
+        covers_bad.extend(d + " [UNREACHABLE]" for d in covers_unreach)
     if any(c["status"] == "UNDETERMINED" for c in r["checks"]) and not inconclusive and not fails:
         inconclusive.append("undetermined checks without a cause")
     return fails, covers_bad, inconclusive
@@ -367,7 +384,7 @@ def run_replay_file(path):
     witness = re.search(r"^// witness_test (\w+)", txt, re.M)
     if witness:
         names = [witness.group(1)]
-    scratch = os.path.join(CACHE, "replay", hname)
+    scratch = os.path.join(CACHE, "replay", "p%d" % os.getpid(), hname)
     shutil.rmtree(scratch, ignore_errors=True)
     if crate == "profirust":
         shutil.copytree(HARNESS_DIR, os.path.join(scratch, "harness"))
@@ -382,7 +399,7 @@ def run_replay_file(path):
             f.write("\n" + "\n".join(l for l in txt.splitlines() if not l.startswith("// ")) + "\n")
         cwd = os.path.join(scratch, "crate")
         env = kani_env()
-    env["CARGO_TARGET_DIR"] = os.path.join(CACHE, "target", "playback-" + crate)
+    env["CARGO_TARGET_DIR"] = os.path.join(CACHE, "target", TREE_TAG, "playback-" + crate)
     details = []
     reproduced = False
     for n in names:
@@ -493,7 +510,10 @@ def check_property(prop, tier, only=None, jobs=None, use_cache=True, do_replay=T
     solver_s = 0.0
     vccs = 0
     labels_ok = set()
-    for h, r in sorted(results, key=lambda x: x[0]["name"]):
+    # cheapest harnesses first: once one violation of this property is confirmed natively, the
+    # remaining failing harnesses are reported without another (expensive) playback run
+    confirmed_by = None
+    for h, r in sorted(results, key=lambda x: (x[1]["wall_s"], x[0]["name"])):
         fails, covers_bad, inc = classify(h, r)
         mine = [f for f in fails if prop in f["props"]]
         others = [f for f in fails if prop not in f["props"]]
@@ -537,7 +557,9 @@ def check_property(prop, tier, only=None, jobs=None, use_cache=True, do_replay=T
             sample["failed_checks"] = [f["label"] + " | " + f["desc"] + " | " + f["loc"] for f in mine_u]
             if unknown:
                 hangs = [f for f in unknown if f["kind"] == "hang"]
-                if do_replay and hangs and len(hangs) == len(unknown):
+                if do_replay and confirmed_by is not None:
+                    ok, path, det = True, "(not replayed)", "not replayed: a violation of this property was already confirmed natively by harness %s in this run" % confirmed_by
+                elif do_replay and hangs and len(hangs) == len(unknown):
                     ok, path, det = replay_hang(h, prop)
                 elif do_replay:
                     ok, path, det = replay_native(h, prop, wanted=[f["desc"] for f in unknown if f["kind"] != "hang"])
@@ -547,6 +569,8 @@ def check_property(prop, tier, only=None, jobs=None, use_cache=True, do_replay=T
                     ok, path, det = True, "(replay skipped)", "replay skipped on request"
                 sample["replay"] = {"path": path, "reproduced": ok, "details": det}
                 if ok:
+                    if confirmed_by is None and do_replay:
+                        confirmed_by = h["name"]
                     violations.append((h, unknown, path, det))
                 else:
                     inconcl.append(h["name"] + ": solver counterexample did not reproduce natively (%s) - encoding/stub/invariant problem in /verif, not reported as a violation" % det)
@@ -561,7 +585,10 @@ def check_property(prop, tier, only=None, jobs=None, use_cache=True, do_replay=T
             if not any(kk is k for kk, _, _ in known_hits):
                 notes.append("known finding '%s' did not show up in this run (fixed upstream, or its witness harness was not conclusive)" % k["what"])
     for h, fs, path, det in violations:
-        say("VIOLATION property=%s replay=%s" % (prop, path))
+        if path == "(not replayed)":
+            say("ALSO-FAILING (same property, not replayed): %s" % h["name"])
+        else:
+            say("VIOLATION property=%s replay=%s" % (prop, path))
         for f in fs:
             say("    %s: %s @ %s" % (h["name"], f["desc"], f["loc"]))
         say("    native replay: " + det)
